@@ -9,3 +9,4 @@ EXPLANATION = ("outcome -> (status, headers, content type, body) table extracted
 def run(rep, W, ctx):
     H.c14_tables(rep, W)
     H.handler_args(rep, W)
+    H.route_params_plain(rep, W)
